@@ -580,7 +580,7 @@ def dedupSyn : List Ty → List Ty → List Ty
 
 /-- a reference to `NoneType`, whatever the node class -/
 def isNoneRef : Ty → Bool
-  | .named n | .cls n | .late n => n == "builtins.NoneType"
+  | .named n | .cls n | .late n => decide (n = "builtins.NoneType")
   | _ => false
 
 def noneLastR (ts : List Ty) : List Ty := ts.filter (fun t => !isNoneRef t) ++ ts.filter isNoneRef
@@ -746,6 +746,24 @@ def derive (u : TUnit) : List Read :=
   u.constants.map (fun c => Read.const c.name)
     ++ (u.functions.filter (fun f => (retOf f).isSome)).map (fun f => Read.call f.name)
     ++ deriveClasses [] u.classes
+
+/-! ### well-formed units: names are unique in every scope (true of every pytd unit pytype builds) -/
+
+mutual
+def wfClass : Class → Bool
+  | .mk _ _ _ methods constants classes _ _ _ =>
+    decide ((constants.map (·.name)).Nodup) && decide ((methods.map (·.name)).Nodup)
+      && decide ((classes.map Class.name).Nodup) && wfClasses classes
+termination_by structural x => x
+def wfClasses : List Class → Bool
+  | [] => true
+  | c :: cs => wfClass c && wfClasses cs
+termination_by structural x => x
+end
+
+def wfUnit (u : TUnit) : Bool :=
+  decide ((u.constants.map (·.name)).Nodup) && decide ((u.functions.map (·.name)).Nodup)
+    && decide ((u.classes.map Class.name).Nodup) && wfClasses u.classes
 
 /-! ### class names mentioned by a type -/
 
